@@ -1,7 +1,18 @@
-"""C12/C13 mode E: the slab pipeline, block splitting and dual-contouring window protocols."""
-import vlib
+"""C12/C13 mode E: the marching-cubes slab pipeline (McScan) and the dual-contouring window (DcWindow)."""
 from vlib import Infra
+
+MCSCAN = "SPECIFICATION Spec\nCONSTANTS\n  MaxZ = %d\n  MaxP = %d\nINVARIANTS RightSlabs NoRace EachOnce\nPROPERTIES Terminates\nCHECK_DEADLOCK FALSE\n"
+DCWIN = "SPECIFICATION Spec\nCONSTANTS\n  MaxZ = %d\nINVARIANTS NeverWithoutCubes AtMostOnce AllOnceAtEnd\nPROPERTIES Terminates\nCHECK_DEADLOCK FALSE\n"
 
 
 def run(ctx):
-    pass
+    quick = ctx.tier == "quick"
+    for name, mod, cfg in [("McScan", "pipeline/McScan", MCSCAN % ((8, 4) if quick else (11, 6))),
+                           ("DcWindow", "pipeline/DcWindow", DCWIN % (12 if quick else 20))]:
+        e = ctx.tlc("E-" + name, mod, cfg, workers=8, timeout=1200)
+        if e.invariant or (e.error and "emporal" in e.error):
+            raise Infra("%s violates %s: the protocol model is wrong or the design is - investigate" % (
+                name, e.invariant or e.error))
+        ctx.require_clean(e, "E-" + name)
+        ctx.add_tlc_counts(e)
+        ctx.stage("protocol-" + name, kind="E", states=e.distinct, generated=e.generated)
